@@ -129,7 +129,9 @@ def scopes_for_owner(owner: NixExpression) -> tuple[Scope, ...]:
         else:
             raise ResolutionError("with environment must resolve to an attribute set")
         if env_scope is not None:
-            scopes.append(env_scope)
+            weak_scope = Scope(env_scope, owner=env_scope.owner)
+            weak_scope.weak = True
+            scopes.append(weak_scope)
 
     from nix_manipulator.expressions.function.call import FunctionCall  # type: ignore
 
